@@ -5,7 +5,7 @@
 // ---- A-map: a std `HashMap<K, V>` that a fragment only *iterates* is declared as `StdMap<K, V>` in the
 // fragment's parameter list (the lifted text `m.values()` / `m.len()` then resolves to the methods
 // below).  View = the same abstract `Map<K, V>` vstd uses for std HashMap.  Assumed semantics:
-//   values(): every entry's value exactly once, in SOME order (std: "arbitrary order"), map is finite
+//   values(): every entry's value exactly once, in SOME order (std: "arbitrary order")
 //   len():    number of entries
 #[verifier::external_body]
 #[verifier::reject_recursive_types(K)]
@@ -38,7 +38,7 @@ impl<K, V> StdMap<K, V> {
     /// std::collections::HashMap::len
     #[verifier::external_body]
     pub fn len(&self) -> (r: usize)
-        ensures self@.dom().finite(), r == self@.dom().len(),
+        ensures r == self@.dom().len(),
     { unimplemented!() }
 }
 
@@ -91,11 +91,11 @@ impl From<Idx> for DepotIdx {
 }
 
 // ---- verified vocabulary: sums over a finite key set -------------------------------------------------
-/// sum of f over the finite set s (0 for an infinite set)
+/// sum of f over the set s (vstd `Set` is finite by construction)
 pub open spec fn set_sum<K>(s: Set<K>, f: spec_fn(K) -> int) -> int
-    decreases s.len() when s.finite()
+    decreases s.len()
 {
-    if s.finite() && s.len() > 0 {
+    if s.len() > 0 {
         let k = s.choose();
         f(k) + set_sum(s.remove(k), f)
     } else {
@@ -103,7 +103,7 @@ pub open spec fn set_sum<K>(s: Set<K>, f: spec_fn(K) -> int) -> int
     }
 }
 pub proof fn lemma_set_sum_remove<K>(s: Set<K>, f: spec_fn(K) -> int, x: K)
-    requires s.finite(), s.contains(x),
+    requires s.contains(x),
     ensures set_sum(s, f) == f(x) + set_sum(s.remove(x), f),
     decreases s.len(),
 {
@@ -119,7 +119,7 @@ pub proof fn lemma_set_sum_enum<K>(keys: Seq<K>, f: spec_fn(K) -> int)
     ensures isum(keys.map_values(f)) == set_sum(keys.to_set(), f),
     decreases keys.len(),
 {
-    vstd::seq_lib::seq_to_set_is_finite(keys);
+    keys.unique_seq_to_set();
     if keys.len() == 0 {
         assert(keys.to_set() =~= Set::<K>::empty());
     } else {
@@ -146,9 +146,9 @@ pub proof fn lemma_set_sum_enum<K>(keys: Seq<K>, f: spec_fn(K) -> int)
 pub proof fn lemma_set_sum_nonneg<K>(s: Set<K>, f: spec_fn(K) -> int)
     requires forall|k: K| s.contains(k) ==> 0 <= #[trigger] f(k),
     ensures 0 <= set_sum(s, f),
-    decreases s.len() when s.finite()
+    decreases s.len()
 {
-    if s.finite() && s.len() > 0 {
+    if s.len() > 0 {
         lemma_set_sum_nonneg(s.remove(s.choose()), f);
     }
 }
@@ -156,9 +156,9 @@ pub proof fn lemma_set_sum_nonneg<K>(s: Set<K>, f: spec_fn(K) -> int)
 pub proof fn lemma_set_sum_le_scaled<K>(s: Set<K>, g: spec_fn(K) -> int, f: spec_fn(K) -> int, c: int)
     requires forall|k: K| s.contains(k) ==> #[trigger] g(k) <= c * f(k),
     ensures set_sum(s, g) <= c * set_sum(s, f),
-    decreases s.len() when s.finite()
+    decreases s.len()
 {
-    if s.finite() && s.len() > 0 {
+    if s.len() > 0 {
         let k = s.choose();
         lemma_set_sum_le_scaled(s.remove(k), g, f, c);
         assert(c * (f(k) + set_sum(s.remove(k), f)) == c * f(k) + c * set_sum(s.remove(k), f)) by (nonlinear_arith);
@@ -167,7 +167,7 @@ pub proof fn lemma_set_sum_le_scaled<K>(s: Set<K>, g: spec_fn(K) -> int, f: spec
     }
 }
 pub proof fn lemma_set_sum_ge_each<K>(s: Set<K>, f: spec_fn(K) -> int, x: K)
-    requires s.finite(), s.contains(x), forall|k: K| s.contains(k) ==> 0 <= #[trigger] f(k),
+    requires s.contains(x), forall|k: K| s.contains(k) ==> 0 <= #[trigger] f(k),
     ensures f(x) <= set_sum(s, f),
 {
     lemma_set_sum_remove(s, f, x);
@@ -192,9 +192,35 @@ pub broadcast proof fn lemma_sum_enum<K, T>(m: Map<K, Vec<T>>, keys: Seq<K>, s: 
     lemma_set_sum_enum(keys, len_of(m));
     assert(s =~= keys.map_values(len_of(m)));
 }
+/// trigger bridge (verified, trivially true): positions of one sequence are also looked at in every other
+/// sequence whose length is mentioned.  `SeqIter::map` states its result pointwise with the trigger
+/// `r@[i]`; a fragment's postcondition that speaks about the i-th *input* needs that instance.
+pub closed spec fn touched<T>(x: T) -> bool { true }
+pub broadcast proof fn lemma_touch_same_index<A, B>(s: Seq<A>, t: Seq<B>, i: int)
+    ensures #![trigger s[i], t.len()] touched(t[i]),
+{
+}
+/// an enumeration reaches every key, and every enumerated vector is at most as long as the total
+pub broadcast proof fn lemma_enum_hits<K, V>(m: Map<K, V>, keys: Seq<K>, vals: Seq<&V>, k: K)
+    requires enumerates(m, keys, vals), m.dom().contains(k),
+    ensures #![trigger enumerates(m, keys, vals), m[k]]
+        exists|i: int| 0 <= i < keys.len() && keys[i] == k && *(#[trigger] vals[i]) == m[k],
+{
+    assert(keys.to_set().contains(k));
+    let i = choose|i: int| 0 <= i < keys.len() && keys[i] == k;
+    assert(*vals[i] == m[k]);
+}
+pub broadcast proof fn lemma_enum_len_le_total<K, T>(m: Map<K, Vec<T>>, keys: Seq<K>, vals: Seq<&Vec<T>>, i: int)
+    requires enumerates(m, keys, vals), 0 <= i < keys.len(),
+    ensures #![trigger enumerates(m, keys, vals), vals[i]]
+        m.dom().contains(keys[i]) && vals[i]@.len() <= total_len(m),
+{
+    assert(keys.to_set().contains(keys[i]));
+    lemma_each_len_le_total(m, keys[i]);
+}
 /// every vector is at most as long as the total
 pub proof fn lemma_each_len_le_total<K, T>(m: Map<K, Vec<T>>, k: K)
-    requires m.dom().finite(), m.dom().contains(k),
+    requires m.dom().contains(k),
     ensures m[k]@.len() <= total_len(m),
 {
     lemma_set_sum_ge_each(m.dom(), len_of(m), k);
